@@ -214,6 +214,25 @@ pub fn rtx(tier: Tier, max_retx: usize, grown: bool, depth: usize) -> Driver {
     Driver { name: format!("rtx-retx{max_retx}-{}", if grown { "grown" } else { "fresh" }), cfg, prefix, alphabet, depth, state_cap: tier.pick(400_000, 6_000_000) }
 }
 
+/// A hole that stays open while the peer keeps reporting the segments behind it one by one: the
+/// inactivity timeout (short here) must count from the peer's last news, not from the last cumulative ACK.
+pub fn sack_keepalive(tier: Tier, depth: usize) -> Driver {
+    let mut d = rtx(tier, 5, true, depth);
+    let def = WndSpec::Default;
+    d.name = "sack-keepalive".into();
+    d.cfg.inactivity_ms = 400;
+    d.alphabet = vec![
+        Act::Wait(150),
+        state(AckSpec::Cur, def, SackSpec::FirstN(1)),
+        state(AckSpec::Cur, def, SackSpec::FirstN(2)),
+        state(AckSpec::Cur, def, SackSpec::FirstN(3)),
+        state(AckSpec::Plus(1), def, SackSpec::None),
+        state(AckSpec::All, def, SackSpec::None),
+        Act::Tick,
+    ];
+    d
+}
+
 /// Right after a fast recovery has ended (the ACK that ends it releases new data): duplicate
 /// ACKs of *that* ACK must count from it.
 pub fn rtx_after_fast_recovery(tier: Tier, depth: usize) -> Driver {
@@ -700,6 +719,7 @@ pub fn all_drivers(tier: Tier) -> Vec<Driver> {
     v.push(rtx(tier, 5, true, 7));
     v.push(rtx_after_recovery_rto(tier, 7));
     v.push(rtx_piggyback(tier, 6));
+    v.push(sack_keepalive(tier, 6));
     v.push(rtx_after_fast_recovery(tier, 6));
     v.push(rtx_after_long_recovery(tier, 5));
     v.push(nagle_recovery(tier, 6));
